@@ -625,6 +625,94 @@ fn put(p: ptr<storage, array<u32>, read_write>, i: u32, v: u32) { (*p)[i] = v; }
 fn main() { o[0] = get(&data, 0u); o[1] = get(&data, 2u); put(&data, 1u, 77u); o[2] = arrayLength(&data); }
 """, rt=4)
 
+# shapes the generated family (lib/mslgen.py) showed to matter, pinned down deterministically
+prog("switch_case_tail_if", """
+@group(0) @binding(0) var<storage, read_write> o: array<u32, 8>;
+@group(0) @binding(1) var<uniform> u: vec4<u32>;
+@compute @workgroup_size(1)
+fn main() {
+  for (var i: u32 = 0u; i < 4u; i++) {
+    switch (i + u.x) % 4u {
+      case 0u: {
+        o[i] += 1u;
+        if (u.y & 1u) == 0u { o[4] += 10u; break; }
+      }
+      case 1u, 2u: {
+        o[i] += 100u;
+        if (u.z & 1u) == 0u { o[5] += 1u; } else { o[5] += 7u; continue; }
+      }
+      default: { o[i] += 1000u; }
+    }
+    o[6] += i;
+  }
+}
+""")
+
+prog("continuing_only_helper", """
+@group(0) @binding(0) var<storage, read_write> o: array<u32, 4>;
+@group(0) @binding(1) var<storage, read_write> ticks: array<u32, 2>;
+fn tick(k: u32) -> u32 { ticks[0] += k; ticks[1] += 1u; return k + 1u; }
+fn spin(n: u32) -> u32 {
+  var k: u32 = 0u;
+  var acc: u32 = 0u;
+  loop {
+    acc += k * 3u;
+    continuing { k = tick(k); break if k >= n; }
+  }
+  return acc;
+}
+@compute @workgroup_size(1)
+fn main() { o[0] = spin(3u); o[1] = spin((o[2] & 3u) + 1u); }
+""")
+
+prog("value_matrix_dynamic_column", """
+@group(0) @binding(0) var<storage, read_write> o: array<vec4<f32>, 6>;
+@group(0) @binding(1) var<uniform> u: vec4<u32>;
+fn col(m: mat4x2<f32>, i: u32) -> vec2<f32> { let c = m[i % 4u]; return c; }
+@compute @workgroup_size(1)
+fn main() {
+  let a = mat4x2<f32>(vec2<f32>(1.0, 2.0), vec2<f32>(3.0, 4.0), vec2<f32>(5.0, 6.0), vec2<f32>(7.0, 8.0));
+  let b = mat3x2<f32>(vec2<f32>(9.0, 10.0), vec2<f32>(11.0, 12.0), vec2<f32>(13.0, 14.0));
+  let d = mat4x3<f32>(vec3<f32>(1.5), vec3<f32>(2.5), vec3<f32>(3.5), vec3<f32>(4.5));
+  for (var i: u32 = 0u; i < 4u; i++) {
+    let ca = a[i];
+    let cb = b[(i + u.x) % 3u];
+    let cd = d[(i + u.y) % 4u];
+    let cc = col(a, i + u.z);
+    o[i] = vec4<f32>(ca, cb);
+    o[4][i] = cd.z;
+    o[5][i] = cc.y;
+  }
+  var vm = mat3x2<f32>(vec2<f32>(1.0), vec2<f32>(2.0), vec2<f32>(3.0));
+  vm[u.w % 3u] = vec2<f32>(20.0, 21.0);
+  let lastc = vm[2];
+  o[5].x = lastc.y;
+}
+""")
+
+prog("array_constructor_repeated_component", """
+struct S { a: array<f32, 3>, k: u32 }
+@group(0) @binding(0) var<storage, read_write> o: array<f32, 12>;
+@group(0) @binding(1) var<uniform> u: vec4<f32>;
+fn sum(a: array<f32, 3>) -> f32 { return a[0] + a[1] * 2.0 + a[2] * 4.0; }
+@compute @workgroup_size(1)
+fn main() {
+  let x = u.x + 1.0;
+  let arr = array<f32, 3>(x, x, x);
+  let nested = array<array<f32, 3>, 2>(arr, arr);
+  let v = vec3<f32>(x, x, x);
+  let m = mat2x3<f32>(v, v);
+  let s = S(array<f32, 3>(x, x, x), 3u);
+  o[0] = arr[0]; o[1] = arr[1]; o[2] = arr[2];
+  o[3] = nested[1][2];
+  o[4] = sum(arr);
+  o[5] = v.z;
+  o[6] = m[1].y;
+  o[7] = s.a[2];
+  o[8] = sum(array<f32, 3>(u.y, u.y, u.y));
+}
+""", mode="finite")
+
 # found by the generated family (lib/mslgen.py): a C++ conditional expression emitted without enclosing parentheses
 prog("select_scalar_operand", """
 @group(0) @binding(0) var<storage, read_write> o: array<f32, 4>;
